@@ -1,6 +1,7 @@
 package xaesgcm
 
 import (
+	tinkpb "github.com/tink-crypto/tink-go/v2/proto/tink_go_proto"
 	"github.com/tink-crypto/tink-go/v2/internal/verifmodels"
 	"crypto/aes"
 	"crypto/cipher"
@@ -81,4 +82,19 @@ func VerifH_xaesgcm_arbitrary() {
 func VerifH_c19_xaesgcm() {
 	a, _, _, _ := build()
 	verifh.CheckAEADNoWrite(a)
+}
+
+func VerifH_serial_xaesgcm() {
+	kind := verifrt.Choice("variant", 2)
+	v := [...]Variant{VariantTink, VariantNoPrefix}[kind]
+	pk := 0
+	id := verifrt.Uint32("id")
+	if kind == 1 {
+		id, pk = 0, 3
+	}
+	params, err := NewParameters(v, 8+verifrt.Choice("salt", 5))
+	verifrt.Assert(err == nil, "NewParameters")
+	k, err := NewKey(secretdata.NewBytesFromData(verifrt.Bytes("key", 32), insecuresecretdataaccess.Token{}), id, params)
+	verifrt.Assert(err == nil, "NewKey")
+	verifh.CheckKeyRoundTrip(k, &keySerializer{}, &keyParser{}, &parametersSerializer{}, &parametersParser{}, pk, id, typeURL, tinkpb.KeyData_SYMMETRIC)
 }
